@@ -127,10 +127,11 @@ class PossibleMatch:
         possible_substructures = get_token_matches(mol, pattern, token)
         if substructure in possible_substructures:
             open_atoms = self._find_open_atoms(substructure, token)
-            self._add_new_open_atoms(open_atoms)
-            self._log_prob = np.log(initial_prob)
-            self.add_handled_atoms(substructure)
-            self._element_weights[self._active_element] += pattern_mw
+            if open_atoms is not None:
+                self._add_new_open_atoms(open_atoms)
+                self._log_prob = np.log(initial_prob)
+                self.add_handled_atoms(substructure)
+                self._element_weights[self._active_element] += pattern_mw
 
         # Always pop SmilesToken, but not stochastic elements
         if isinstance(self._big.elements[self._active_element], SmilesToken):
@@ -171,11 +172,12 @@ class PossibleMatch:
         self._handled_atoms.append(tuple(substructure))
 
     def _find_open_atoms(self, substructure, token):
+        # Returns None, if the substructure is not a match for the token.
         outside_bonds = []
         open_atoms = []
         for atom_idx in substructure:
             if self.is_atom_handled(atom_idx):
-                return []
+                return None
             aoi = self._mol.GetAtomWithIdx(atom_idx)
             for bond in aoi.GetBonds():
                 if (
@@ -190,7 +192,7 @@ class PossibleMatch:
                     outside_bonds.append((bond.GetEndAtomIdx(), bond.GetBeginAtomIdx()))
         # Consider it only a true match if the number of outside bonds matches the number of bond descriptors
         if len(outside_bonds) != len(token.bond_descriptors):
-            return []
+            return None
         # Ensure that the outside bonds correspond to bond descriptors
         tmp_bd = copy.deepcopy(token.bond_descriptors)
         for bond in outside_bonds:
@@ -205,7 +207,7 @@ class PossibleMatch:
                     bd_idx = i
                     break
             if bd_idx is None:
-                return []
+                return None
             del tmp_bd[bd_idx]
         if len(tmp_bd) != 0:
             raise RuntimeError("length should be 0 here")
@@ -323,6 +325,8 @@ class PossibleMatch:
                             new_match = match.copy(reaction_prob)
                             # Find new open bond that can react
                             new_open_atoms = new_match._find_open_atoms(substructure, token)
+                            if new_open_atoms is None:
+                                continue
                             new_match._add_new_open_atoms(new_open_atoms)
                             # Add the handled atoms to the match
                             new_match.add_handled_atoms(substructure)
